@@ -478,6 +478,8 @@ func maxKillTO(sc *Scenario) int {
 	return m
 }
 
+var scenarioEpoch atomic.Int64
+
 // Run executes one scenario against the real runner.
 func Run(sc *Scenario) *Result {
 	app.VerifReset()
@@ -509,7 +511,14 @@ func Run(sc *Scenario) *Result {
 	// unclean scenario) are dropped: every real instance emits Spawn before anything else
 	var spawnedMu sync.Mutex
 	spawned := map[int64]bool{}
+	// a goroutine left over from an earlier scenario (e.g. a dependency wait that outlives its cancelled dependent)
+	// loads the trace function BEFORE it computes instance numbers: numbers of the old scenario therefore always
+	// arrive through the old scenario's closure, which is dead once a newer scenario has begun
+	myEpoch := scenarioEpoch.Add(1)
 	app.VerifTraceFn = func(ev string, proc string, inst int64, kv []any) {
+		if scenarioEpoch.Load() != myEpoch {
+			return
+		}
 		if inst != 0 {
 			spawnedMu.Lock()
 			if ev == "Spawn" {
